@@ -317,6 +317,48 @@ pub fn run(cfg: &Cfg, rep: &mut Report) {
         r.count("mutants_accepted_and_reproduced", 1);
         r.nontrivial(format!("mutated:m{}", m));
     });
+    // enumerants the LIVE enumerations declare beyond the frozen reference (a grammar update), inside a carrier
+    // instruction: if the loader accepts the module, assembling it must give back the very words
+    {
+        use crate::generated::decls;
+        let carriers = crate::mon::c02::carriers();
+        let mut extra: Vec<(crate::gram::K, u32)> = vec![];
+        for (_, k) in decls::OPERAND_KINDS {
+            if decls::kind_class(*k) == 0 && carriers.contains_key(k) {
+                if let Some(e) = decls::ENUMS.iter().find(|e| e.name == crate::gram::kind_name(*k)) {
+                    extra.extend(e.variants.iter().map(|(_, v)| *v).filter(|v| !d.enum_declared(*k, *v)).map(|v| (*k, v)));
+                }
+            }
+        }
+        let extra_ref = &extra;
+        run_stage(cfg, rep, "live-enumerants", extra.len() as u64 * 4, |idx, rng, r| {
+            let (k, v) = extra_ref[(idx / 4) as usize];
+            let cs = &carriers[&k];
+            let c = &cs[rng.below(cs.len())];
+            let mut gen = Gen::with_id_policy(rng);
+            let mut insts = crate::mon::c02::context(&mut gen);
+            let mut forces = c.pre.clone();
+            forces.push((k, v));
+            gen.forces = forces;
+            let x = match gen.inst(rng, &d.insts[c.op], Form::Max) {
+                Some(x) if gen.forces.is_empty() => x,
+                _ => return,
+            };
+            insts.push(x);
+            let (words, _m, _s) = genmod::encode_module(0x0001_0600, 0, gen.next_id, &insts, None);
+            let rp = || crate::util::replay_ref(cfg, "live-enumerants", idx).set("binary", hex_words(&words));
+            if let Ok(Ok(m)) = catch(|| dr::load_words(&words)) {
+                match catch(|| m.assemble()) {
+                    Ok(out) if out[5..] == words[5..] => r.count("live_enumerants_reproduced", 1),
+                    Ok(out) => {
+                        let at = out.iter().zip(&words).position(|(a, b)| a != b).unwrap_or(0);
+                        r.violation(format!("C01:live-enumerant:{}", crate::gram::kind_name(k)), format!("{} value {} (declared by the live tree only) in Op{}: accepted, but load + assemble changes word {} ({:#x} -> {:#x})", crate::gram::kind_name(k), v, d.insts[c.op].opname, at, words.get(at).copied().unwrap_or(0), out.get(at).copied().unwrap_or(0)), rp());
+                    }
+                    Err(p) => r.violation(format!("C01:panic:{}", crate::util::panic_key(&p)), format!("assemble panicked: {}", p.msg), rp()),
+                }
+            }
+        });
+    }
     let n = cfg.n(n_ops * 20, n_ops * 6000);
     run_stage(cfg, rep, "modules", n, |idx, rng, r| {
         let must = (idx % n_ops) as usize;
